@@ -200,7 +200,10 @@ def run(ctx):
             if len(samples) < 3 and len(c["expr"]) > 25:
                 samples.append({"expr": c["expr"], "args": c["args"][0], "events": r["py"]["runs"][0].get("trace")})
         elif kind == "mismatch":
-            ctx.violation(f"shape:{c['shape']}", f"evaluation order/count differs from Python for `{c['expr']}`: {json.dumps(d)[:500]}",
+            # call-site class of the finding: subscripting a value that is not a place (`array(..)[i]`)
+            # compiles the index before the subscripted value (visit_SubscriptAccessAndDrop)
+            key = "site:subscript-of-rvalue:index-before-value" if ")[" in c["expr"] else f"shape:{c['shape']}"
+            ctx.violation(key, f"evaluation order/count differs from Python for `{c['expr']}`: {json.dumps(d)[:500]}",
                           {"case": c, "detail": d})
         elif kind == "spec-vs-python":
             raise lib.Machinery(f"GuppySem disagrees with CPython on `{c['expr']}`: {json.dumps(d)[:600]}")
